@@ -122,19 +122,6 @@ def gen_case(seed):
     if not swarm['noforce_end'] and ops[-1][0] == 'run_for' and not ops[-1][2]:
         ops[-1] = r.pick([['update', ops[-1][1]], ['run_for', ops[-1][1], True]])
     t0u = r.rint(1, 40) if swarm['t0'] else 0
-    if p is not None:
-        # the property speaks of runs on the 10^-p grid: keep every requested
-        # end time (float start + interval) exactly on it
-        cur = tval(t0u, unit)
-        for op in ops:
-            for _ in range(60):
-                end = cur + tval(op[1], unit)
-                if end == round(end, p):
-                    break
-                op[1] = op[1] + 1
-            else:
-                raise harness.HarnessError('no on-grid interval found')
-            cur = end
     init = {}
     if r.chance(40):
         init = {'acc': {v: r.rint(0, 1000) for v in avars if r.chance(60)}}
@@ -309,7 +296,8 @@ def execute(case, parallel=(), perm=None, emit_step=None):
             initial_global_time=t0, **kw)
         if eng is not None:
             harness.drive(run, eng, case['ops'], unit,
-                          lambda op: budget_for(case, op[1] if len(op) > 1 else 1))
+                          lambda op: budget_for(case, op[1] if len(op) > 1 else 1),
+                          prec=opts.get('precision'))
             if run.exc is None:
                 try:
                     run.extra['front'] = {
@@ -764,8 +752,8 @@ def validate(case):
             if op[1] < 1:
                 raise harness.HarnessError('zero-length interval')
             end = cur + tval(op[1], unit)
-            if p is not None and end != round(end, p):
-                raise harness.HarnessError('off-grid end time')
+            if p is not None:
+                end = round(end, p)
             cur = end
     for s in case['procs']:
         if any(v < 1 for v in s['ts']['vals']) or not s['ts']['vals']:
